@@ -114,22 +114,27 @@ Definition ret_code (n : Z) (o : outcome) : Z :=
   | WouldBlock => -1 | Error => -1 | Zero => 0 | Full => n | Sent k => send_count n k
   end.
 
+(* One poll event for the client.  A connection with a backlog that the kernel reports writable gets
+   its backlog offered to the operating system in that event - whether or not it is readable as
+   well.  The read notification of the same event is delivered afterwards unless the event already
+   delivered onWrite / onClosed (level-triggered readiness: it is reported again). *)
 Definition spec_deliver (t : sst) (n : native) (o : outcome) : sst * out :=
   let want_r := negb (s_susp t) in
   let want_w := negb (is_nil (q t)) in
   let dr := (nin n || nhup n) && want_r in                  (* a read notification only when wanted *)
   let dw := (nout n || negb dr && nhup n) && want_w in      (* hang-up counts as write-ready when no read is delivered *)
-  if dr then (t, out_cb OnRead)
-  else if dw then
+  let rd := if dr then [OnRead] else [] in
+  if dw then
     match hand_over (q t) o with
-    | (RBlock, _, _) => (t, mkout None 0 [] [] [(zlen (q t), ret_code (zlen (q t)) o)] [] false false)
+    | (RBlock, _, _) => (t, mkout None 0 rd [] [(zlen (q t), ret_code (zlen (q t)) o)] [] false false)
     | (RFail, _, _) =>
         (mksst [] (s_susp t) (s_closing t) true (s_void t) (s_dead t) (s_wire t) (s_inbound t) (s_peer_closed t),
          mkout None 0 [OnClosed] [] [(zlen (q t), ret_code (zlen (q t)) o)] [] true false)
     | (RSent r, tx, rest) =>
         (mksst rest (s_susp t) (s_closing t) (s_gone t) (s_void t) (s_dead t) (s_wire t ++ tx) (s_inbound t) (s_peer_closed t),
-         mkout None 0 (if is_nil rest then [OnWrite] else []) tx [(zlen (q t), r)] [] false false)
+         mkout None 0 (if is_nil rest then [OnWrite] else rd) tx [(zlen (q t), r)] [] false false)
     end
+  else if dr then (t, out_cb OnRead)
   else (t, out_none).
 
 (* the operations whose effect does not depend on the connection still being served *)
@@ -202,3 +207,14 @@ Definition spec_step (t : sst) (x : op) : sst * option out :=
   | _ => (t, Some out_none)      (* handled by spec_common *)
   end
   end.
+
+(* a history on the reference object; None = no claim about that operation *)
+Fixpoint spec_exec (t : sst) (l : list op) : sst * list (option out) :=
+  match l with
+  | [] => (t, [])
+  | x :: l' => let '(t1, c) := spec_step t x in let '(t2, cs) := spec_exec t1 l' in (t2, c :: cs)
+  end.
+
+(* the model's observation meets the spec's claim *)
+Definition claim_met (c : option out) (r : out) : Prop :=
+  match c with Some r' => r' = r | None => True end.
